@@ -220,7 +220,7 @@ int main(int argc, char **argv)
 	MuteCerr mute;
 	uint64_t seed = mcenv::env_seed();
 	std::string family = A.get("family", "small");
-	bool thorough = (A.tier == "thorough");
+	bool thorough = (A.tier == "thorough") && !A.has("quickbounds");   // --quickbounds: quick alphabet inside a thorough run (ASan pass)
 
 	KeyPool pool;
 	std::vector<unsigned long> sizes;
